@@ -107,6 +107,23 @@ def check_mesh(m, cls, faces, form, L=None):
             except AttributeError:
                 if lab in LABELS[cls]:
                     bad.append(('labels', '%s.%s missing on %s' % (name, lab, cls)))
+    # vector components of a FaceVariable on this mesh: reachable only under the coordinate system's labels
+    try:
+        import pyfvtool as _pf
+        fv = _pf.FaceVariable(m, 1.0)
+        comp = {'x': 'xvalue', 'y': 'yvalue', 'z': 'zvalue', 'r': 'rvalue', 'theta': 'thetavalue', 'phi': 'phivalue'}
+        internal = ['_xvalue', '_yvalue', '_zvalue']
+        for lab in ALL_LABELS:
+            try:
+                val = getattr(fv, comp[lab])
+                ok = lab in LABELS[cls] and val is getattr(fv, internal[LABELS[cls].index(lab)])
+                if not ok:
+                    bad.append(('labels', 'FaceVariable.%s reachable on %s (foreign label or wrong component)' % (comp[lab], cls)))
+            except AttributeError:
+                if lab in LABELS[cls]:
+                    bad.append(('labels', 'FaceVariable.%s missing on %s' % (comp[lab], cls)))
+    except Exception as e:     # constructing a FaceVariable failed: reported by C16, not a geometry verdict
+        pass
     return bad
 
 
@@ -155,7 +172,7 @@ def run_case(case):
         key = '%s/NL/%s/%s' % (cls, n, ['%.3g' % x for x in Ls])
         sample = {'form': 'NL', 'cls': cls, 'N': n, 'L': Ls}
         nontrivial = True
-    cov['labels_checked'] = 18
+    cov['labels_checked'] = 24
     if bad:
         mechs = sorted(set(b[0] for b in bad))
         # a known finding must not mask an additional, different violation in the same case
